@@ -509,6 +509,10 @@ class TorControlProtocol(LineOnlyReceiver):
             d.errback(RuntimeError("Expected an even number of arguments."))
             return d
         strargs = [str(x) for x in args]
+        if any('\r' in x or '\n' in x for x in strargs):
+            d = defer.Deferred()
+            d.errback(ValueError("Keys and values can't contain newlines."))
+            return d
         keys = [strargs[i] for i in range(0, len(strargs), 2)]
         values = [strargs[i] for i in range(1, len(strargs), 2)]
 
